@@ -116,6 +116,13 @@ Thank you osask project !`)
 func setUpColog(debug bool) {
 	colog.Register()
 	colog.SetDefaultLevel(colog.LInfo)
+	// colog matches headers case-sensitively; many messages in this code base announce
+	// problems as "Error: ..." / "Warning: ...". Without these headers they would be
+	// filed (and shown) as plain info lines.
+	colog.AddHeader("Error: ", colog.LError)
+	colog.AddHeader("Error ", colog.LError)
+	colog.AddHeader("Warning: ", colog.LWarning)
+	colog.AddHeader("WARN: ", colog.LWarning)
 	if debug {
 		colog.SetMinLevel(colog.LDebug)
 	} else {
